@@ -180,10 +180,17 @@ impl Sub<f64> for ClockTime {
 			return self.add(-ticks);
 		}
 
-		let fraction = ((self.fraction - ticks).fract() + 1.0) % 1.0;
-		let ticks = self
-			.ticks
-			.saturating_sub((ticks - self.fraction).ceil() as u64);
+		// split the difference into whole ticks to borrow and a fraction in [0, 1).
+		// `difference - whole` rounds up to exactly 1.0 when `difference` is a tiny
+		// negative number; that is a whole tick, not a fraction
+		let difference = self.fraction - ticks;
+		let mut whole = difference.floor();
+		let mut fraction = difference - whole;
+		if fraction >= 1.0 {
+			fraction = 0.0;
+			whole += 1.0;
+		}
+		let ticks = self.ticks.saturating_sub((-whole) as u64);
 
 		Self {
 			clock: self.clock,
